@@ -44,9 +44,9 @@ type enumCfg struct {
 
 func enumFileCfgs(lens []int) []enumCfg {
 	var out []enumCfg
-	for _, v := range []rsm.SSVersion{rsm.V2, rsm.V1} {
-		for _, ct := range []pb.CompressionType{pb.NoCompression, pb.Snappy} {
-			for _, n := range lens {
+	for _, n := range lens {
+		for _, v := range []rsm.SSVersion{rsm.V2, rsm.V1} {
+			for _, ct := range []pb.CompressionType{pb.NoCompression, pb.Snappy} {
 				out = append(out, enumCfg{v, ct, n})
 			}
 		}
@@ -56,43 +56,59 @@ func enumFileCfgs(lens []int) []enumCfg {
 
 func enumStreamCfgs(lens []int) []enumCfg {
 	var out []enumCfg
-	for _, ct := range []pb.CompressionType{pb.NoCompression, pb.Snappy} {
-		for _, n := range lens {
+	for _, n := range lens {
+		for _, ct := range []pb.CompressionType{pb.NoCompression, pb.Snappy} {
 			out = append(out, enumCfg{rsm.V2, ct, n})
 		}
 	}
 	return out
 }
 
-func enumLens(ctx *runner.Ctx) []int {
-	switch ctx.Param("lens", "small") {
-	case "medium":
+// enumLensOf: the LAST length is the one whose artefacts are walked
+// completely (every byte); for the others the header padding, which no
+// length can influence, is skipped (bytes padSkipFrom..headerSize).
+func enumLensOf(lens string) []int {
+	if lens == "medium" {
 		return []int{16, 300}
 	}
 	return []int{0, 1, 37}
 }
 
+const padSkipFrom = 96
+
+// slack for what surrounds the payload (compression framing, block checksum, tail)
+const enumSlack = 64
+
+func enumUnits(mode string, bytes int) int {
+	switch mode {
+	case "flip":
+		return bytes * 8
+	case "trunc":
+		return bytes
+	}
+	return bytes * 9 // every bit, then every cut
+}
+
+// enumLayout: first the fully walked configurations (interleaved), then the
+// others (interleaved). Returns the sizes of the two blocks.
+func enumLayout(mode string, lens []int) (nFull, unitsFull, nPart, unitsPart int) {
+	per := 4
+	if mode == "stream" {
+		per = 2
+	}
+	maxLen := lens[len(lens)-1]
+	nFull = per
+	nPart = per * (len(lens) - 1)
+	unitsFull = enumUnits(mode, headerSize+maxLen+enumSlack)
+	unitsPart = enumUnits(mode, padSkipFrom+maxLen+enumSlack)
+	return
+}
+
 // EnumRuns returns an upper bound of the run indexes an enumerating part
 // needs (used for MaxRuns in the registration).
 func EnumRuns(mode string, lens string) int {
-	maxLen := 37
-	n := 3
-	if lens == "medium" {
-		maxLen, n = 300, 2
-	}
-	// header + snappy framing + payload + crc + tail, generously
-	bytesMax := headerSize + maxLen + 64
-	switch mode {
-	case "flip":
-		return 4 * n * bytesMax * 8
-	case "trunc":
-		return 4 * n * bytesMax
-	case "stream":
-		return 2 * n * bytesMax * 9
-	case "fstream":
-		return 4 * n * bytesMax * 9
-	}
-	return 0
+	nf, uf, np, up := enumLayout(mode, enumLensOf(lens))
+	return nf*uf + np*up
 }
 
 type sim struct {
@@ -494,17 +510,59 @@ func (s *sim) judgeLoad(res Loaded, payload []byte, strict bool, what string) (c
 	return 4
 }
 
-func (s *sim) enumFile(cfgs []enumCfg) (j int64) {
-	c := cfgs[int(s.idx%uint64(len(cfgs)))]
+// enumPick maps the run index to a configuration and a unit number inside
+// it. skipPad tells that the header padding is not walked for this one.
+func (s *sim) enumPick(mode string) (j int64, skipPad bool) {
+	lens := enumLensOf(s.ctx.Param("lens", "small"))
+	var cfgs []enumCfg
+	if mode == "stream" {
+		cfgs = enumStreamCfgs(lens)
+	} else {
+		cfgs = enumFileCfgs(lens)
+	}
+	nf, uf, np, _ := enumLayout(mode, lens)
+	full, part := cfgs[len(cfgs)-nf:], cfgs[:len(cfgs)-nf]
+	var c enumCfg
+	idx := int64(s.idx)
+	if idx < int64(nf*uf) || np == 0 {
+		c, j = full[idx%int64(nf)], idx/int64(nf)
+	} else {
+		idx -= int64(nf * uf)
+		c, j, skipPad = part[idx%int64(np)], idx/int64(np), true
+	}
 	s.cfg = Config{Version: c.v, CT: c.ct, N: c.n, Kind: 0, Seed: 0xc14 + uint64(c.n)}
-	return int64(s.idx / uint64(len(cfgs)))
+	return j, skipPad
+}
+
+// enumByte maps the k-th walked byte to its offset (skipping the padding).
+func enumByte(k int64, skipPad bool) int64 {
+	if skipPad && k >= padSkipFrom {
+		return k + int64(headerSize-padSkipFrom)
+	}
+	return k
+}
+
+// walked returns how many bytes of an artefact of the given size are walked.
+func walked(size int64, skipPad bool) int64 {
+	if skipPad && size > padSkipFrom {
+		if size <= int64(headerSize) {
+			return padSkipFrom
+		}
+		return size - int64(headerSize-padSkipFrom)
+	}
+	return size
 }
 
 // runFileFault: corruption at rest (one flipped bit, or a cut when trunc).
 func (s *sim) runFileFault(trunc bool) {
 	var j int64 = -1
+	skipPad := false
 	if s.enum {
-		j = s.enumFile(enumFileCfgs(enumLens(s.ctx)))
+		mode := "flip"
+		if trunc {
+			mode = "trunc"
+		}
+		j, skipPad = s.enumPick(mode)
 	} else {
 		s.cfg, s.class = drawConfig(s.src, s.ctx.Param("big", "1") == "1", true)
 	}
@@ -518,11 +576,11 @@ func (s *sim) runFileFault(trunc bool) {
 	if trunc {
 		var cut int64
 		if s.enum {
-			if j >= size {
+			if j >= walked(size, skipPad) {
 				s.note = "index beyond the file"
 				return
 			}
-			cut = j
+			cut = enumByte(j, skipPad)
 		} else {
 			cut = s.drawCut(size, v2)
 		}
@@ -540,11 +598,11 @@ func (s *sim) runFileFault(trunc bool) {
 	}
 	var bit int64
 	if s.enum {
-		if j >= size*8 {
+		if j >= walked(size, skipPad)*8 {
 			s.note = "index beyond the file"
 			return
 		}
-		bit = j
+		bit = enumByte(j/8, skipPad)*8 + j%8
 	} else {
 		bit = s.drawBit(size, v2)
 	}
@@ -658,11 +716,12 @@ func clonePieces(ps []Piece) []Piece {
 // -> rsm.SnapshotValidator (file=true).
 func (s *sim) runStream(file bool) {
 	var j int64 = -1
+	skipPad := false
 	if s.enum {
 		if file {
-			j = s.enumFile(enumFileCfgs(enumLens(s.ctx)))
+			j, skipPad = s.enumPick("fstream")
 		} else {
-			j = s.enumFile(enumStreamCfgs(enumLens(s.ctx)))
+			j, skipPad = s.enumPick("stream")
 		}
 	} else {
 		s.cfg, s.class = drawConfig(s.src, s.ctx.Param("big", "1") == "1", file)
@@ -752,11 +811,12 @@ func (s *sim) runStream(file bool) {
 	kind := 0
 	var pos int64
 	if s.enum {
+		wk := walked(total, skipPad)
 		switch {
-		case j < total*8:
-			kind, pos = 1, j
-		case j < total*9:
-			kind, pos = 2, j-total*8
+		case j < wk*8:
+			kind, pos = 1, enumByte(j/8, skipPad)*8+j%8
+		case j < wk*9:
+			kind, pos = 2, enumByte(j-wk*8, skipPad)
 		default:
 			s.note = "index beyond the stream"
 			return
@@ -846,7 +906,12 @@ func (s *sim) runStream(file bool) {
 		pos = int64(a)
 	}
 	s.ctx.Ev("stream-fault", uint64(kind), uint64(pos))
+	ForgetsRefusal = false
 	acc, pan, why = Validate(bad)
+	if ForgetsRefusal {
+		s.ctx.Count("probe.validator_says_valid_after_refusing_a_chunk", 1)
+		s.ctx.Tracef("PROBE %s: %s: AddChunk refused a piece, the rest of the stream was fed anyway and Validate() returned true", s.cfg, desc)
+	}
 	s.ctx.Ev("validate-bad", b2u(acc), b2u(pan))
 	s.sig = append(s.sig, uint64(kind), uint64(pos), b2u(acc))
 	s.note = fmt.Sprintf("%s accepted=%t", desc, acc)
